@@ -464,7 +464,7 @@ class RandomSource:
             # stopped machine (DESIGN 6: outside the explored space; see known finding F8 for what happens there)
             # (for the autonomous variant nothing runs on a stopped machine - on_iteration() is latched off - so the
             # corner is harmless there apart from the next on_enable() starting at the pending state; it is explored)
-            if not (self.shape["auto"] and rng.random() < 0.6):
+            if not (rng.random() < 0.6):
                 return {"e": "done"} if rng.random() < 0.2 else None
         r = rng.random()
         if r < 0.22:
